@@ -2,6 +2,7 @@ import OutlineModel.Drive.Replay
 import OutlineModel.Drive.IP
 import OutlineModel.Drive.UDP
 import OutlineModel.Drive.NatConn
+import OutlineModel.Drive.Auth
 /- Model driver: one op per line on stdin, one result per line on stdout.
    First word selects the engine.  Core only (no Mathlib) so it links as a lean_exe. -/
 open OutlineModel
@@ -10,11 +11,13 @@ structure St where
   replay : Drive.Replay.St := Drive.Replay.init
   udp : Drive.UDP.St := Drive.UDP.init
   nc : Drive.NatConn.St := {}
+  auth : Drive.Auth.St := {}
 
 def stepLine (st : St) (line : String) : St × String :=
   match (line.trimAscii.toString.splitOn " ").filter (· ≠ "") with
   | "replay" :: args => let (s, o) := Drive.Replay.step st.replay args; ({ st with replay := s }, o)
   | "udp" :: args => let (s, o) := Drive.UDP.step st.udp args; ({ st with udp := s }, o)
+  | "auth" :: args => let (s, o) := Drive.Auth.step st.auth args; ({ st with auth := s }, o)
   | "nc" :: args => let (s, o) := Drive.NatConn.step st.nc args; ({ st with nc := s }, o)
   | "ip" :: args => (st, Drive.IP.step args)
   | _ => (st, "bad-engine")
